@@ -33,7 +33,7 @@ function mapRefs(t, f) { // map over (ref name args…) nodes, bottom-up
     case "array": case "arr2": case "paren": case "readonly": return [t[0], mapRefs(t[1], f)];
     case "tuple": return [t[0], t[1].map((x) => mapRefs(x, f)), isAtom(t[2], "none") ? t[2] : mapRefs(t[2], f)];
     case "obj": return [t[0], t[1].map(([k, o, ty]) => [k, o, mapRefs(ty, f)]), isAtom(t[2], "none") ? t[2] : [mapRefs(t[2][0], f), mapRefs(t[2][1], f)]];
-    case "union": case "inter": return [t[0], ...t.slice(1).map((x) => mapRefs(x, f))];
+    case "union": case "inter": case "cond": case "idx": case "keyof": return [t[0], ...t.slice(1).map((x) => mapRefs(x, f))];
     case "bi": return [t[0], t[1], ...t.slice(2).map((x) => mapRefs(x, f))];
     case "ref": return f([t[0], t[1], ...t.slice(2).map((x) => mapRefs(x, f))]);
     default: return t;
@@ -100,6 +100,12 @@ export function genSplitProject(rng, p) {
     if (r === 4 && !F.hasDefault) { F.hasDefault = true; F.stmts.push({ kind: "export-default", name: ln }); return { file: F.name, kind: "default" }; }
     if (r === 5 && !F.hasDefault) { F.hasDefault = true; F.stmts.push({ kind: "export-local", name: ln, renamed: "default" }); return { file: F.name, kind: "default" }; }
     if (r === 6 && !F.hasDefault && isIface(X) && st.kind === "decl" && !st.exported) { F.hasDefault = true; st.kind = "export-default-iface"; return { file: F.name, kind: "default" }; }
+    // exported under the name ANOTHER declaration of the file carries locally (`type Meta = …; export { Other as Meta }`): inside
+    // the file the name is the local declaration, in the export table it is this one
+    if (r === 7 && rng.chance(1, 2)) {
+      const cands = decls.filter((d) => place.get(d[1]) === F.name && d[1] !== X).map((d) => local.get(d[1])).filter((n) => n !== ln && !F.exported.has(n));
+      if (cands.length) { const en = rng.pick(cands); F.exported.add(en); F.stmts.push({ kind: "export-local", name: ln, renamed: en }); return { file: F.name, kind: "named", name: en }; }
+    }
     const en = F.freshExport(ln + "_r");
     F.stmts.push({ kind: "export-local", name: ln, renamed: en });
     return { file: F.name, kind: "named", name: en };
